@@ -152,6 +152,10 @@ class Exemptions:
                 return False
             if isinstance(e, ast.Attribute) and e.attr in ("TIMEZONE", "TO_TIMEZONE"):
                 return True
+            if isinstance(e, ast.Constant) and e.value is None:
+                # `None if settings is None else settings.TIMEZONE`: whether the None can reach pytz depends on a guard this exemption
+                # does not follow - undecided, not "a foreign zone name"
+                raise AnalysisError("exemption", "%s: the zone name handed to pytz may be None on some path; this exemption does not follow the guard" % f.qual)
             if isinstance(e, ast.BoolOp):
                 return all(ok_expr(v, f, depth + 1) for v in e.values)
             if isinstance(e, ast.IfExp):
